@@ -193,6 +193,22 @@ func allRoutes(b *built) [][]int {
 
 func hasDevices(tp topoSpec) bool { return len(tp.Devs) > 0 }
 
+func firstDiffRows(a, b [][]int) (int, []int, []int) {
+	for i := 0; i < len(a) || i < len(b); i++ {
+		var ra, rb []int
+		if i < len(a) {
+			ra = a[i]
+		}
+		if i < len(b) {
+			rb = b[i]
+		}
+		if fmt.Sprint(ra) != fmt.Sprint(rb) {
+			return i, ra, rb
+		}
+	}
+	return -1, nil, nil
+}
+
 func netName(k int) string { return "Net" + string(rune('A'+k)) }
 
 func genC30(rt *rapid.T, steer bool) (c c30Case, excluded bool) {
@@ -203,7 +219,11 @@ func genC30(rt *rapid.T, steer bool) (c c30Case, excluded bool) {
 		n = 1 // see the rule: reuse of the NVLink wrapper is not judged
 	}
 	for k := 0; k < n; k++ {
-		c.Nets = append(c.Nets, genTopo(rt, kind, false))
+		tp := genTopo(rt, kind, false)
+		if kind == "generic" && rapid.Bool().Draw(rt, "grow") {
+			tp = growTopo(rt, tp)
+		}
+		c.Nets = append(c.Nets, tp)
 	}
 	if steer && n > 1 && kind != "mesh" {
 		// Known finding: a router-based connector reused after a network with
@@ -220,10 +240,159 @@ func genC30(rt *rapid.T, steer bool) (c c30Case, excluded bool) {
 					c.Nets[k].NSw = 2
 					c.Nets[k].Edges = []edgeSpec{{A: 0, B: 1, LatA: 1, LatB: 1, ChA: 1, ChB: 1, BufA: 1, BufB: 1}}
 				}
+				c.Nets[k].Rounds = nil
 			}
 		}
 	}
 	return c, excluded
+}
+
+// growTopo turns a generic topology into a multi-round build of the same
+// topology: 1-3 intermediate EstablishRoute() calls, each on a connected part
+// (every switch of a part has a link or a device, as the routers require).
+//
+// The switches are relabelled in a drawn connected order (every switch but the
+// first has a link to an earlier one), so that "the first k switches" is a
+// connected part for every k. Each switch has one drawn anchor link to an
+// earlier switch that is built in the round that adds the switch; every other
+// link (a chord: it closes a cycle or doubles a link) and every device is
+// built in a drawn round at or after the first one in which its switches
+// exist. Links and devices are then ordered by round (stable), so a round is a
+// prefix of both lists and a one-go build issues the links among themselves
+// and the devices among themselves in the same order as the rounds do.
+func growTopo(rt *rapid.T, tp topoSpec) topoSpec {
+	n := tp.NSw
+	nr := rapid.IntRange(1, 3).Draw(rt, "extraRounds")
+
+	// connected order
+	adj := model(connSpec{Kind: "generic"}, tp).adj()
+	order := []int{rapid.IntRange(0, n-1).Draw(rt, "growStart")}
+	placed := map[int]bool{order[0]: true}
+	for len(order) < n {
+		var cand []int
+		seen := map[int]bool{}
+		for _, u := range order {
+			for _, v := range adj[u] {
+				if !placed[v] && !seen[v] {
+					seen[v] = true
+					cand = append(cand, v)
+				}
+			}
+		}
+		v := rapid.SampledFrom(cand).Draw(rt, "growNext")
+		placed[v] = true
+		order = append(order, v)
+	}
+	label := make([]int, n)
+	for pos, old := range order {
+		label[old] = pos
+	}
+	edges := append([]edgeSpec{}, tp.Edges...)
+	for i := range edges {
+		edges[i].A, edges[i].B = label[edges[i].A], label[edges[i].B]
+	}
+	devs := append([]devSpec{}, tp.Devs...)
+	for i := range devs {
+		devs[i].Sw = label[devs[i].Sw]
+	}
+
+	// switches per round
+	k := make([]int, nr+1)
+	for r := 0; r < nr; r++ {
+		k[r] = rapid.IntRange(1, n).Draw(rt, "roundSw")
+	}
+	k[nr] = n
+	for i := 1; i < nr; i++ { // insertion sort of k[:nr]
+		for j := i; j > 0 && k[j-1] > k[j]; j-- {
+			k[j-1], k[j] = k[j], k[j-1]
+		}
+	}
+	devOn0 := -1
+	for i, d := range devs {
+		if d.Sw == 0 {
+			devOn0 = i
+			break
+		}
+	}
+	if k[0] == 1 && devOn0 < 0 {
+		// a lone switch without link or device cannot be routed (n >= 2 here:
+		// the devices sit elsewhere)
+		for r := 0; r < nr; r++ {
+			k[r] = max(k[r], 2)
+		}
+	}
+	earliest := func(sw int) int {
+		for r := 0; r <= nr; r++ {
+			if k[r] > sw {
+				return r
+			}
+		}
+		return nr
+	}
+
+	// rounds of links and devices
+	anchor := make([]int, n) // index of the anchor link of each switch
+	for i := range anchor {
+		anchor[i] = -1
+	}
+	for sw := 1; sw < n; sw++ {
+		var mine []int
+		for i, e := range edges {
+			if max(e.A, e.B) == sw {
+				mine = append(mine, i)
+			}
+		}
+		anchor[sw] = rapid.SampledFrom(mine).Draw(rt, "anchor")
+	}
+	eRound := make([]int, len(edges))
+	for i, e := range edges {
+		sw := max(e.A, e.B)
+		eRound[i] = earliest(sw)
+		if anchor[sw] != i {
+			eRound[i] = rapid.IntRange(eRound[i], nr).Draw(rt, "linkRound")
+		}
+	}
+	dRound := make([]int, len(devs))
+	for i, d := range devs {
+		dRound[i] = rapid.IntRange(earliest(d.Sw), nr).Draw(rt, "devRound")
+	}
+	if k[0] == 1 {
+		dRound[devOn0] = 0
+	}
+
+	out := tp
+	out.Edges, out.Devs, out.Rounds = nil, nil, nil
+	for r := 0; r <= nr; r++ {
+		for i, e := range edges {
+			if eRound[i] == r {
+				out.Edges = append(out.Edges, e)
+			}
+		}
+		for i, d := range devs {
+			if dRound[i] == r {
+				out.Devs = append(out.Devs, d)
+			}
+		}
+		if r < nr {
+			out.Rounds = append(out.Rounds, roundSpec{NSw: k[r], NEdges: len(out.Edges), NDevs: len(out.Devs)})
+		}
+	}
+	return out
+}
+
+// routeMap: every (switch, device port) walk of a network by name.
+func routeMap(b *built) map[string]string {
+	own := portOwners(b)
+	out := map[string]string{}
+	for from := range b.sw {
+		for _, a := range b.agents {
+			for _, p := range a.ports {
+				r := follow(b, own, from, p.AsRemote())
+				out[fmt.Sprintf("%d>%s", from, p.Name())] = fmt.Sprint(r.Path, r.EP, r.Err)
+			}
+		}
+	}
+	return out
 }
 
 func TestC30Routing(t *testing.T) {
@@ -253,17 +422,44 @@ func TestC30Routing(t *testing.T) {
 		prevDevices := false
 		for k, tp := range c.Nets {
 			var b *built
+			// multi-round build: every intermediate network is judged like a
+			// finished one
+			var roundSig, roundMsg string
+			var before []map[string]string
+			h.afterRound = func(r int, part topoSpec, pb *built) {
+				if roundSig != "" {
+					return
+				}
+				if sig, msg, _ := checkRoutes(c.Conn, part, pb); sig != "" {
+					roundSig, roundMsg = "round:"+sig, fmt.Sprintf("after EstablishRoute() #%d of %d (%d switches, %d links, %d devices so far): %s",
+						r+1, len(tp.Rounds)+1, part.NSw, len(part.Edges), len(part.Devs), msg)
+					return
+				}
+				before = append(before, routeMap(pb))
+			}
 			ok, sig, msg := guard(func() { b = h.build(netName(k), tp) })
+			h.afterRound = nil
 			if !ok {
-				if k > 0 && prevDevices && c.Conn.Kind != "mesh" && strings.HasSuffix(sig, ".tableToRoute") {
+				if k > 0 && prevDevices && c.Conn.Kind != "mesh" && strings.HasSuffix(sig, ".tableToRoute") && len(tp.Rounds) == 0 {
 					s.Fail(f, c, sigReuse, "network %d of a reused %s connector (an earlier network had devices): %s", k+1, c.Conn.Kind, msg)
 					return
+				}
+				if len(tp.Rounds) > 0 {
+					sig = "grown:" + sig
 				}
 				s.Fail(f, c, "build:"+sig, "network %d: %s", k+1, msg)
 				return
 			}
+			if roundSig != "" {
+				s.Fail(f, c, roundSig, "network %d of %d: %s", k+1, len(c.Nets), roundMsg)
+				return
+			}
 			sig, msg, st := checkRoutes(c.Conn, tp, b)
 			if sig != "" {
+				if len(tp.Rounds) > 0 {
+					sig = "grown:" + sig
+					msg = fmt.Sprintf("after the last of %d EstablishRoute() calls on this network (rounds %+v): %s", len(tp.Rounds)+1, tp.Rounds, msg)
+				}
 				if k > 0 {
 					sig = "reused:" + sig
 				}
@@ -275,11 +471,49 @@ func TestC30Routing(t *testing.T) {
 				nontrivial = true
 				classes = append(classes, "cyclic-with-choice")
 			}
-			if k > 0 {
-				// the same build calls on a fresh connector
+			if len(tp.Rounds) > 0 {
+				classes = append(classes, fmt.Sprintf("grown:establish-route-calls=%d", len(tp.Rounds)+1))
+				last := tp.Rounds[len(tp.Rounds)-1]
+				if last.NSw < tp.NSw {
+					classes = append(classes, "grown:switches-added-after-routing")
+				}
+				if last.NDevs < len(tp.Devs) {
+					classes = append(classes, "grown:devices-added-after-routing")
+				}
+				// a link added after a routing round in which both of its switches
+				// already existed (so they were connected without it)
+				lateChord := false
+				for i, e := range tp.Edges {
+					for _, rd := range tp.Rounds {
+						if rd.NEdges <= i && max(e.A, e.B) < rd.NSw {
+							lateChord = true
+						}
+					}
+				}
+				if lateChord {
+					classes = append(classes, "grown:chord-added-after-routing")
+				}
+				final := routeMap(b)
+				changed := false
+				for _, m := range before {
+					for key, was := range m {
+						if final[key] != was {
+							changed = true
+						}
+					}
+				}
+				if changed {
+					nontrivial = true
+					classes = append(classes, "grown:existing-route-changed-by-later-round")
+				}
+			}
+			if k > 0 || len(tp.Rounds) > 0 {
+				// the same topology on a fresh connector, built in one go
+				oneGo := tp
+				oneGo.Rounds = nil
 				var fb *built
 				ok, sig, msg := guard(func() {
-					fb = newConnHolder(c.Conn, newCapReg()).build(netName(k), tp)
+					fb = newConnHolder(c.Conn, newCapReg()).build(netName(k), oneGo)
 				})
 				if !ok {
 					s.Fail(f, c, "build:"+sig, "network %d on a fresh connector: %s", k+1, msg)
@@ -287,13 +521,23 @@ func TestC30Routing(t *testing.T) {
 				}
 				got, want := allRoutes(b), allRoutes(fb)
 				if fmt.Sprint(got) != fmt.Sprint(want) {
-					s.Fail(f, c, "reuse-differs:"+c.Conn.Kind, "network %d: walks with the reused connector %v, with a fresh one %v", k+1, got, want)
+					dsig, how := "reuse-differs:", "the reused connector"
+					if len(tp.Rounds) > 0 {
+						dsig, how = "grown-differs:", fmt.Sprintf("the network grown in %d rounds %+v", len(tp.Rounds)+1, tp.Rounds)
+					}
+					i, eg, ew := firstDiffRows(got, want)
+					s.Fail(f, c, dsig+c.Conn.Kind+routerTag(c.Conn), "network %d: walk #%d (switch path, -(endpoint+1)) with %s %v, with a fresh connector building the final topology in one go %v", k+1, i, how, eg, ew)
 					return
 				}
-				nontrivial = true
-				classes = append(classes, "reuse-compared")
-				if prevDevices {
-					classes = append(classes, "reuse-after-devices")
+				if k > 0 {
+					nontrivial = true
+					classes = append(classes, "reuse-compared")
+					if prevDevices {
+						classes = append(classes, "reuse-after-devices")
+					}
+				}
+				if len(tp.Rounds) > 0 {
+					classes = append(classes, "grown-compared-with-one-go-build")
 				}
 			}
 			prevDevices = prevDevices || hasDevices(tp)
